@@ -496,6 +496,18 @@ def _ord_variants(p):
     return None
 
 
+def _pure_arith(x):
+    """arithmetic over locals and literals that cannot panic or have effects when evaluated
+    eagerly (`window / 2`: division only by a non-zero literal; no overflow-capable operator)"""
+    x = peel(x)
+    if x.get('k') in ('Lit',) or (x.get('k') == 'Path' and x.get('res') == 'local'):
+        return True
+    if x.get('k') == 'Binary' and x.get('op') in ('Div', 'Rem', 'Shr'):
+        d = peel(x['ch'][1])
+        return _pure_arith(x['ch'][0]) and d.get('k') == 'Lit' and str(d.get('v', '0')).strip('0.') != ''
+    return False
+
+
 def _plain_place(x):
     x = peel(x)
     while x.get('k') == 'Field':
@@ -822,6 +834,29 @@ def normalize(e):
                     len(rv['ch']) == 2 and peel(rv['ch'][1]).get('local') == errarm[0]['pat']['ch'][0].get('local'):
                 return {'k': 'Match', 'src': 'TryDesugar', 'ch': [e['ch'][0]], 'arms': e['arms'],
                         'sp': e.get('sp'), 'id': e.get('id'), 'ty': e.get('ty'), 'manual_try': True}
+    # `match o { Some(v) => v, None => return Err(E) }` is `o.ok_or_else(|| E)?` (same error type)
+    if k == 'Match' and not e.get('src', '').endswith('Desugar') and len(e.get('arms', [])) == 2 and \
+            not any('guard' in a for a in e['arms']):
+        somearm = [a for a in e['arms'] if a['pat'].get('k') == 'TupleStruct' and
+                   strip_generics(a['pat'].get('def', '')).endswith('::Some') and len(a['pat'].get('ch', [])) == 1 and
+                   a['pat']['ch'][0].get('k') == 'Binding']
+        nonearm = [a for a in e['arms'] if (a['pat'].get('k') in ('Path', 'Expr', 'Struct') and
+                                            pat_src(a['pat']).endswith('None')) or a['pat'].get('k') == 'Wild']
+        if len(somearm) == 1 and len(nonearm) == 1 and somearm[0] is not nonearm[0]:
+            sb, nb = peel(somearm[0]['body']), peel(nonearm[0]['body'])
+            while nb.get('k') == 'Block' and not nb.get('stmts') and 'expr' in nb:
+                nb = peel(nb['expr'])
+            if nb.get('k') == 'Block' and len(nb.get('stmts', [])) == 1 and 'expr' not in nb:
+                nb = peel(nb['stmts'][0].get('e', {}))
+            rv = peel(nb['ch'][0]) if nb.get('k') == 'Ret' and nb.get('ch') else {}
+            if sb.get('k') == 'Path' and sb.get('local') == somearm[0]['pat']['ch'][0].get('local') and \
+                    rv.get('k') == 'Call' and strip_generics(rv.get('callee', '')).endswith('Err') and len(rv['ch']) == 2:
+                thunk = {'k': 'Closure', 'params': [], 'captures': [], 'ch': [rv['ch'][1]], 'sp': rv.get('sp'),
+                         'ty': 'closure'}
+                call = {'k': 'MethodCall', 'method': 'ok_or_else', 'callee': 'std::option::Option::<T>::ok_or_else',
+                        'ch': [e['ch'][0], thunk], 'sp': e.get('sp'), 'ty': 'std::result::Result'}
+                return {'k': 'Match', 'src': 'TryDesugar', 'ch': [call], 'arms': [], 'sp': e.get('sp'),
+                        'id': e.get('id'), 'ty': e.get('ty'), 'manual_try': True}
     # `match c { true => A, false => B }` (second arm possibly `_`) is `if c { A } else { B }`
     if k == 'Match' and not e.get('src', '').endswith('Desugar') and len(e.get('arms', [])) == 2 and \
             not any('guard' in a for a in e['arms']):
@@ -885,7 +920,7 @@ def normalize(e):
             inner = some['pat']['ch'][0] if len(some['pat'].get('ch', [])) == 1 else {}
             psb, pnb = peel(sb), peel(nb)
             if inner.get('k') == 'Binding' and psb.get('k') == 'Path' and psb.get('local') == inner.get('local') \
-                    and (pnb.get('k') in ('Lit', 'Path') or
+                    and (pnb.get('k') in ('Lit', 'Path') or _pure_arith(pnb) or
                          (pnb.get('k') == 'Call' and len(pnb.get('ch', [])) == 1)):
                 return {'k': 'MethodCall', 'method': 'unwrap_or',
                         'callee': 'std::option::Option::<T>::unwrap_or', 'ch': [e['ch'][0], nb],
@@ -933,6 +968,9 @@ def normalize(e):
                 it = peel(it)['ch'][0]
             return {'k': 'For', 'pat': cl['params'][0], 'ch': [it, cl['ch'][0]],
                     'sp': e.get('sp'), 'id': e.get('id'), 'ty': '()', 'via': 'for_each'}
+    # `let PAT = init else { diverge }; rest` is `if let PAT = init { rest } else { diverge }`
+    if k == 'Block' and any(s_.get('k') == 'Let' and 'els' in s_ and 'init' in s_ for s_ in e.get('stmts', [])):
+        e = _let_else(e)
     # `let c = a < b; .. if c & d {..}` is `if (a < b) & d {..}` when nothing c reads is assigned
     # in between
     if k == 'Block' and e.get('stmts'):
@@ -966,6 +1004,27 @@ def normalize(e):
             return {'k': 'MultiAssign', 'targets': targets, 'pat': s0['pat'], 'ch': [init],
                     'sp': e.get('sp'), 'id': e.get('id'), 'ty': '()', 'binds': len(binds)}
     return e
+
+
+def _let_else(blk):
+    st = list(blk['stmts'])
+    i = next(j for j, s_ in enumerate(st) if s_.get('k') == 'Let' and 'els' in s_ and 'init' in s_)
+    le = st[i]
+    rest = {'k': 'Block', 'stmts': st[i + 1:], 'sp': blk.get('sp'), 'ty': blk.get('ty')}
+    if 'expr' in blk:
+        rest['expr'] = blk['expr']
+    if any(s_.get('k') == 'Let' and 'els' in s_ and 'init' in s_ for s_ in rest['stmts']):
+        rest = _let_else(rest)
+    if rest.get('stmts'):
+        rest = _while_counters(_inline_bool_lets(rest))
+    els = le['els'] if le['els'].get('k') == 'Block' else {'k': 'Block', 'stmts': [], 'expr': le['els'],
+                                                            'sp': le['els'].get('sp'), 'ty': le['els'].get('ty')}
+    cond = {'k': 'LetExpr', 'pat': le['pat'], 'ch': [le['init']], 'sp': le.get('sp'), 'ty': 'bool'}
+    iff = {'k': 'If', 'ch': [cond, rest, els], 'sp': blk.get('sp'), 'ty': blk.get('ty'), 'let_else': True}
+    out = {key: v for key, v in blk.items() if key not in ('stmts', 'expr')}
+    out['stmts'] = st[:i]
+    out['expr'] = iff
+    return out
 
 
 def _while_counters(blk):
